@@ -183,8 +183,8 @@ def r_configs(tier):
         out.append(cf(3, 3, True, "DYN", "E0", "one"))
         out.append(cf(2, 2, 1, 100, "E0", "wide"))                      # disabled by cache < n
         out.append(cf(3, 2, 2, 100, "E0", "small"))                     # disabled by cache < n
-        out.append(cf(4, 2, True, 100, "E0", "dur"))
-        out.append(cf(4, -1, 4, 100, "E0", "args"))
+        out.append(cf(4, 2, True, 100, "E0", "pad"))
+        out.append(cf(4, -1, 4, 100, "E0", "one"))
         out.append(cf("I3", 2, True, 100, "E0", "small"))               # cache ignored for INDEFINITE
     return out
 
